@@ -125,7 +125,8 @@ def realise(M, m, opname, argterms, extra=None):
     g = lambda k: argterms[k]
     node = lambda k: ref.get(_i(m, g(k)))
     try:
-        if opname == 'remove_node': steps.append(['remove', node('node')])
+        if opname == 'none': pass
+        elif opname == 'remove_node': steps.append(['remove', node('node')])
         elif opname == 'unexport': steps.append(['unexport', node('node')])
         elif opname == 'export': steps.append(['export', node('node'), nm.of(g('name'))])
         elif opname == 'import': steps.append(['import', nm.of(g('name')), FUNC])
